@@ -336,8 +336,11 @@ def r7(p, rep):
         for path in cfg.paths(cfg.entry, {rn.id}, limit=5000):
             n_paths += 1
             known = None
+            locals_ = {}  # boolean locals assigned on this path: a later `if not v:` speaks about their definition
             for nid in path:
                 nd = byid[nid]
+                if nd.kind == "stmt" and isinstance(nd.ast, ast.Assign) and len(nd.ast.targets) == 1 and isinstance(nd.ast.targets[0], ast.Name):
+                    locals_[nd.ast.targets[0].id] = nd.ast.value
                 if nd.kind in ("stmt", "test") and nd.ast is not None and nd is not rn:
                     e = nd.test if nd.kind == "test" and nd.test is not None else nd.ast
                     if not isinstance(e, (ast.If, ast.While, ast.For, ast.Try, ast.With)):
@@ -345,7 +348,12 @@ def r7(p, rep):
                             if isinstance(c, ast.Call) and isinstance(c.func, ast.Attribute) and isinstance(c.func.value, ast.Name) and c.func.value.id == f.params[0] and c.func.attr not in ("_invalid_backend_reasons",):
                                 known = None  # a method of the state object may register backends: earlier facts are stale
                 if nd.kind == "edge" and nd.test is not None and nd.polarity is not None:
-                    for t, pol in decompose(nd.test, nd.polarity):
+                    todo = list(decompose(nd.test, nd.polarity))
+                    while todo:
+                        t, pol = todo.pop(0)
+                        if isinstance(t, ast.Name) and t.id in locals_:
+                            todo += decompose(locals_[t.id], pol)
+                            continue
                         m = membership(t, pol)
                         if m is not None:
                             known = m
